@@ -1,6 +1,10 @@
 import QuillModel.Rot.RenderThm
 import QuillModel.Time.CivilProofs
-namespace Rot
+/-!
+Calendar part of the rendered names: `%Y%m%d` / `%Y%m%d_%H%M%S` of a civil day / second (`renderDay`, `renderSec`) written
+with zero-padded decimals is dot-free, non-empty and — from the epoch on — injective, through the civil round trip
+`Time.daysFromCivil_civilFromDays` (the calendar of C13). Used by `C14_rendered_names_distinct`.
+-/namespace Rot
 
 theorem civil_eq (n : Nat) :
     civilFromDays (n : Int) =
@@ -67,13 +71,32 @@ theorem renderDay_eq (v : Int) : (renderDay v).toList =
   obtain ⟨y, m, dd⟩ := p
   simp only [String.toList_append, pad_toList]
 
+theorem renderDay_of (v : Int) (y m d : Nat) (h : civilFromDays v = ((y : Int), m, d)) :
+    (renderDay v).toList = padL 4 y ++ padL 2 m ++ padL 2 d := by
+  have h1 := renderDay_eq v
+  rw [h] at h1
+  simpa using h1
+
 theorem renderDay_toList (n : Nat) : (renderDay (n : Int)).toList =
-    padL 4 (Time.civilFromDays n).year ++ padL 2 (Time.civilFromDays n).mon ++ padL 2 (Time.civilFromDays n).day := by
-  have h := renderDay_eq (n : Int)
-  have e := civil_eq n
-  generalize civilFromDays (n : Int) = p at h e
-  subst e
-  exact h
+    padL 4 (Time.civilFromDays n).year ++ padL 2 (Time.civilFromDays n).mon ++ padL 2 (Time.civilFromDays n).day :=
+  renderDay_of (n : Int) _ _ _ (civil_eq n)
+
+/-- three zero-padded numbers: digits only, not empty -/
+theorem ymd_chars (y m d : Nat) : (∀ c ∈ padL 4 y ++ padL 2 m ++ padL 2 d, c.isDigit = true) ∧
+    padL 4 y ++ padL 2 m ++ padL 2 d ≠ [] := by
+  constructor
+  · intro c hc
+    simp only [List.mem_append] at hc
+    rcases hc with (h | h) | h <;> exact padL_digit _ _ c h
+  · intro h
+    exact padL_ne_nil _ _ (List.append_eq_nil_iff.mp (List.append_eq_nil_iff.mp h).1).1
+
+theorem renderDay_chars' (v : Int) : (∀ c ∈ (renderDay v).toList, c.isDigit = true) ∧ (renderDay v).toList ≠ [] := by
+  rw [renderDay_eq]
+  generalize (civilFromDays v).1.toNat = y
+  generalize (civilFromDays v).2.1 = m
+  generalize (civilFromDays v).2.2 = d
+  exact ymd_chars y m d
 
 theorem renderDay_inj {a b : Nat} (h : renderDay (a : Int) = renderDay (b : Int)) : a = b := by
   have h' := congrArg String.toList h
@@ -89,11 +112,7 @@ theorem renderDay_inj {a b : Nat} (h : renderDay (a : Int) = renderDay (b : Int)
   rw [e1, e2, e3, Time.daysFromCivil_civilFromDays b] at this
   exact this.symm
 
-theorem renderDay_chars (v : Int) : ∀ c ∈ (renderDay v).toList, c.isDigit = true := by
-  intro c hc
-  rw [renderDay_eq] at hc
-  simp only [List.mem_append] at hc
-  rcases hc with (h | h) | h <;> exact padL_digit _ _ c h
+theorem renderDay_chars (v : Int) : ∀ c ∈ (renderDay v).toList, c.isDigit = true := (renderDay_chars' v).1
 
 theorem renderSec_toList (n : Nat) : (renderSec (n : Int)).toList =
     (renderDay ((n / 86400 : Nat) : Int)).toList ++ ('_' :: (padL 2 (n % 86400 / 3600) ++ padL 2 (n % 86400 / 60 % 60) ++
@@ -130,33 +149,37 @@ theorem renderSec_chars (v : Int) : ∀ c ∈ (renderSec v).toList, c.isDigit = 
     rw [this] at h; simpa using h
   all_goals exact Or.inl (padL_digit _ _ c h)
 
+theorem not_digit_dot : ¬ (Char.isDigit '.' = true) := by decide
+
+theorem renderDay_free (v : Int) : DotFree (renderDay v).toList ∧ (renderDay v).toList ≠ [] := by
+  refine ⟨?_, (renderDay_chars' v).2⟩
+  generalize hl : (renderDay v).toList = l
+  have hc : ∀ c ∈ l, c.isDigit = true := by rw [← hl]; exact (renderDay_chars' v).1
+  intro hm
+  exact not_digit_dot (hc '.' hm)
+
+theorem renderSec_free (v : Int) : DotFree (renderSec v).toList ∧ (renderSec v).toList ≠ [] := by
+  have hc := renderSec_chars v
+  have hne : (renderSec v).toList ≠ [] := by
+    have h0 := (renderDay_free (v / 86400)).2
+    simp only [renderSec, String.toList_append]
+    generalize (renderDay (v / 86400)).toList = l at h0
+    intro h
+    exact h0 (List.append_eq_nil_iff.mp (List.append_eq_nil_iff.mp (List.append_eq_nil_iff.mp (List.append_eq_nil_iff.mp h).1).1).1).1
+  refine ⟨?_, hne⟩
+  generalize (renderSec v).toList = l at hc
+  intro hm
+  rcases hc '.' hm with h | h
+  · exact not_digit_dot h
+  · exact absurd h (by decide)
+
 /-- the suffix strings contain no dot and are not empty — for every value -/
 theorem renderSfx_dotFree_ne_nil (sch : Scheme) (v : Int) :
     DotFree (renderSfx sch v).toList ∧ (renderSfx sch v).toList ≠ [] := by
-  have hday : DotFree (renderDay v).toList ∧ (renderDay v).toList ≠ [] := by
-    constructor
-    · unfold DotFree
-      intro hm
-      have h1 := renderDay_chars v '.' hm
-      exact absurd h1 (by decide)
-    · rw [renderDay_eq]
-      intro h
-      exact padL_ne_nil _ _ (List.append_eq_nil_iff.mp (List.append_eq_nil_iff.mp h).1).1
-  have hsec : DotFree (renderSec v).toList ∧ (renderSec v).toList ≠ [] := by
-    constructor
-    · unfold DotFree
-      intro hm
-      rcases renderSec_chars v '.' hm with h | h
-      · exact absurd h (by decide)
-      · exact absurd h (by decide)
-    · simp only [renderSec, String.toList_append]
-      intro h
-      have h1 := (List.append_eq_nil_iff.mp (List.append_eq_nil_iff.mp (List.append_eq_nil_iff.mp (List.append_eq_nil_iff.mp h).1).1).1).1
-      exact hday.2 h1
   cases sch with
-  | dateTime => exact hsec
-  | index => exact hday
-  | date => exact hday
+  | dateTime => exact renderSec_free v
+  | index => exact renderDay_free v
+  | date => exact renderDay_free v
 
 /-- **the calendar rendering is injective** on instants from the epoch on: `%Y%m%d` on civil days, `%Y%m%d_%H%M%S` on
     civil seconds (via the civil round trip `Time.daysFromCivil_civilFromDays`) -/
